@@ -39,6 +39,10 @@ pub trait Engine {
     /// Simpler variants of the trace (fewer nodes, plain parameters).
     fn simplify(t: &Self::T) -> Vec<Self::T>;
     fn directed(prop: &str) -> Vec<Directed<Self::T>>;
+    /// Fault / rare-condition counters that a thorough batch of this engine is expected to reach.
+    fn expected_probes() -> &'static [&'static str] {
+        &[]
+    }
     fn rule() -> &'static str;
     fn components() -> serde_json::Value;
 }
